@@ -55,6 +55,10 @@ type Outcome struct {
 	Bounded  string
 	Query    *smt.Query
 	FailPath int
+	// Sat: a solver found the negated obligation satisfiable (Model may be
+	// empty when the obligation has no free variable: then every input of the
+	// unit's shape is a counterexample).
+	Sat bool
 }
 
 // Report is the result of checking a set of units.
@@ -282,6 +286,7 @@ func Check(m *sx.Machine, units []*Unit, cfg Config) *Report {
 				o.Status = "proved"
 			case "sat":
 				o.Status = "failed"
+				o.Sat = true
 				o.ModelT = r.Model
 				o.Model = map[string]string{}
 				for _, v := range q.Values {
@@ -397,6 +402,9 @@ func WriteReplay(dir string, prop string, o *Outcome) string {
 	if o.Bounded != "" {
 		fmt.Fprintf(&sb, "bounded: %s\n", o.Bounded)
 	}
+	if o.Sat && len(o.Model) == 0 {
+		sb.WriteString("counterexample: the obligation has no free variable; it fails for every input of this unit's shape\n")
+	}
 	if len(o.Model) > 0 {
 		sb.WriteString("counterexample (model of the negated obligation):\n")
 		var ks []string
@@ -407,11 +415,11 @@ func WriteReplay(dir string, prop string, o *Outcome) string {
 		for _, k := range ks {
 			fmt.Fprintf(&sb, "  %s = %s\n", k, o.Model[k])
 		}
-	} else {
+	} else if !o.Sat {
 		sb.WriteString("no-failing-input-found: the solver gave no model\n")
 		fmt.Fprintf(&sb, "solver output:\n%s\n", o.Output)
 	}
-	if o.Unit.Replay != nil && len(o.Model) > 0 {
+	if o.Unit.Replay != nil && o.Sat {
 		sb.WriteString("\n--- replay against the real code ---\n")
 		sb.WriteString(o.Unit.Replay(o))
 	}
